@@ -477,7 +477,7 @@ class GetTrace(ReadContract):
 
 for _w in ('none', 'both', 'lo', 'hi'):
     _cls = type('GetTrace_' + _w, (GetTrace,), dict(window=_w))
-    register(_cls, 'read.py::SgzReader.get_trace', ['C02', 'C07', 'C14'], ALL3, modes=('file',) if _w != 'none' else ('file', 'preload'), tag='win:' + _w)
+    register(_cls, 'read.py::SgzReader.get_trace', ['C02', 'C07', 'C14'] + (['C06'] if _w == 'none' else []), ALL3, modes=('file',) if _w != 'none' else ('file', 'preload'), tag='win:' + _w)
 
 
 class GetTrace2d(GetTrace):
